@@ -156,6 +156,7 @@ class ATSPEnv(RL4COEnvBase):
 
     @staticmethod
     def check_solution_validity(td: TensorDict, actions: torch.Tensor):
+        assert actions.size(1) == td["cost_matrix"].size(-1), "Tour does not visit all nodes"
         assert (
             torch.arange(actions.size(1), out=actions.data.new())
             .view(1, -1)
